@@ -135,6 +135,10 @@ bool PedersenTrapdoorCommitmentScheme::CheckGroup
 	mpz_init(foo);
 	try
 	{
+		// Check whether $q$ is positive.
+		if (mpz_cmp_ui(q, 0L) <= 0)
+			throw false;
+
 		// Check whether $p$ and $q$ have appropriate sizes.
 		if ((mpz_sizeinbase(p, 2L) < F_size) || 
 			(mpz_sizeinbase(q, 2L) < G_size))
@@ -343,7 +347,7 @@ bool JareckiLysyanskayaRVSS::CheckGroup
 		// Compute $k := (p - 1) / q$
 		mpz_set(k, p);
 		mpz_sub_ui(k, k, 1L);
-		if (!mpz_cmp_ui(q, 0L))
+		if (mpz_cmp_ui(q, 0L) <= 0)
 			throw false;
 		mpz_div(k, k, q);
 
